@@ -157,6 +157,7 @@ pub fn scenarios(thorough: bool) -> Vec<Scenario> {
         s
     }).collect();
     v.append(&mut rev);
+    v.extend(cross_scenarios(thorough));
     v
 }
 
